@@ -2,7 +2,7 @@
 
 PROPS = {
     "C07": {
-        "units": {"kani": ["c07_sha256", "c07_sha512", "c07_ripemd160"]},
+        "units": {"kani": ["c07_sha256", "c07_sha512", "c07_ripemd160"], "polyvc": ["c07_sha256_gates"]},
         "scope": "off-circuit spread/limb kernels of the SHA-256, SHA-512 and RIPEMD-160 chips (table contents and every witness limb are computed by them)",
         "not_decided": ["all in-circuit constraint emission, table wiring, message schedule, padding, varlen selection",
                         "Poseidon (chip, cpu, round skips), Keccak/SHA3, BLAKE2b"],
@@ -15,7 +15,7 @@ PROPS = {
     },
 }
 PROPS["C12"] = {
-    "units": {"kani": ["c12_booth", "c12_bitreverse"]},
+    "units": {"kani": ["c12_booth", "c12_bitreverse", "c12_windows"]},
     "scope": "the signed-digit (Booth) recoding consumed by every Rust MSM path, the bit-reversal permutation of best_fft, and the chunking arithmetic that makes results independent of the thread count",
     "not_decided": ["bucket / batch-affine / Schedule logic and the butterflies (generic over curve and field traits, iterator adapters)",
                     "msm_specific / multi_exp (blst)", "EvaluationDomain algebra (generic + rayon)"],
